@@ -45,12 +45,10 @@ Row(ch, rk, pos, serial) ==
   [ rec |-> <<"A">>, serial |-> serial, name |-> <<"P">>, alt |-> <<>>, resn |-> <<"G">>, chain |-> ch,
     resseq |-> rk[1], icode |-> rk[2], x |-> pos, y |-> 0, z |-> 0, occ |-> 100, b |-> 0, elem |-> <<"P">>,
     charge |-> <<>>, model |-> 1 ]
-\* serial scheme 0: 1..n; scheme 1: beyond the limit
-TablesOf(n) == { [i \in 1..n |-> Row(c[i], r[i], i, IF s = 0 THEN i ELSE MaxSerial + i)] :
-                   c \in [1..n -> ChainPalette], r \in [1..n -> ResPalette], s \in {0, 1} }
-Tables == UNION { TablesOf(n) : n \in 0..MaxAtoms }
-
-Init == /\ T \in Tables
+\* every table of n <= MaxAtoms rows over the palettes; serial scheme 0: 1..n; scheme 1: beyond the limit
+Init == /\ \E n \in 0..MaxAtoms, s \in {0, 1} :
+             \E c \in [1..n -> ChainPalette], r \in [1..n -> ResPalette] :
+                T = [i \in 1..n |-> Row(c[i], r[i], i, IF s = 0 THEN i ELSE MaxSerial + i)]
         /\ fmt \in {"cif", "pdb"}
         /\ (fmt = "pdb" => Fits(T))        \* a PDB-derived frame comes out of fixed columns
         /\ pc = "start" /\ out = T /\ result = "none" /\ k = 1 /\ cur = 0 /\ last = <<>>
